@@ -13,7 +13,9 @@ from ..impl import Species, reset_globals
 from naunet.reactions.kromereaction import KROMEReaction
 
 TRUST = ["Lark's Earley parser (its choice of tree is observed per expression, not modelled)",
-         "the oracle evaluates both texts with Python's operators: ** is right-associative and binds tighter than unary minus, as in Fortran"]
+         "the oracle evaluates the Fortran text with Python's operators (** is right-associative and binds tighter than unary minus, "
+         "as in Fortran; a Fortran d-literal is a real) and the C text by its own evaluator with C arithmetic (int/int truncates, "
+         "pow returns double)"]
 
 KNOWN = {"pow": "C12-power-left-associative", "signed": "C12-signed-literal-base-of-power", "idx": "C12-idx-suffix-only-for-one-character-names"}
 VARS = ["Tgas", "Te", "invT", "T32", "lnTe", "sqrTgas", "invTe", "user_crate", "user_Av", "nH"]
@@ -67,12 +69,48 @@ def f_eval(src, env, ab):
 
 
 def c_eval(out, env, ab):
-    ns = {"exp": math.exp, "sqrt": math.sqrt, "log": math.log, "log10": math.log10, "abs": abs, "fabs": abs, "pow": lambda a, b: a ** b,
-          "min": min, "max": max}
-    ns.update(env)
-    ns.update({"IDX_" + a: a for a in ab})
-    ns["y"] = ab
-    return eval(out, {"__builtins__": {}}, ns)
+    """value of the emitted C expression with C arithmetic: int/int truncates, libm functions return double"""
+    import ast
+    fns = {"exp": math.exp, "sqrt": math.sqrt, "log": math.log, "log10": math.log10, "abs": abs, "fabs": lambda x: abs(float(x)),
+           "pow": lambda a, b: float(a) ** float(b), "min": min, "max": max}
+
+    def ev(n):
+        if isinstance(n, ast.Expression):
+            return ev(n.body)
+        if isinstance(n, ast.Constant) and isinstance(n.value, (int, float)):
+            return n.value
+        if isinstance(n, ast.Name):
+            if n.id in env:
+                return float(env[n.id])
+            if n.id.startswith("IDX_") and n.id[4:] in ab:
+                return ("idx", n.id[4:])
+            raise NameError(n.id)
+        if isinstance(n, ast.UnaryOp) and isinstance(n.op, (ast.USub, ast.UAdd)):
+            v = ev(n.operand)
+            return -v if isinstance(n.op, ast.USub) else v
+        if isinstance(n, ast.BinOp):
+            a, b = ev(n.left), ev(n.right)
+            if isinstance(n.op, ast.Add):
+                return a + b
+            if isinstance(n.op, ast.Sub):
+                return a - b
+            if isinstance(n.op, ast.Mult):
+                return a * b
+            if isinstance(n.op, ast.Div):
+                if isinstance(a, int) and isinstance(b, int):
+                    q = abs(a) // abs(b)                # C: truncation toward zero
+                    return q if (a >= 0) == (b >= 0) else -q
+                return a / b
+            raise SyntaxError("operator")
+        if isinstance(n, ast.Call) and isinstance(n.func, ast.Name) and n.func.id in fns:
+            return fns[n.func.id](*[ev(x) for x in n.args])
+        if isinstance(n, ast.Subscript) and isinstance(n.value, ast.Name) and n.value.id == "y":
+            k = ev(n.slice)
+            if isinstance(k, tuple) and k[0] == "idx":
+                return float(ab[k[1]])
+            raise NameError("subscript")
+        raise SyntaxError(type(n).__name__)
+    return ev(ast.parse(out.strip(), mode="eval"))
 
 
 def close(a, b):
@@ -130,7 +168,7 @@ def classify(rate):
 # ---- generators -----------------------------------------------------------------------------------
 def num(rng):
     m = rng.choice(["1.0", "2.5", "4.67", "0.5", "3", "10.526", "1.2"])
-    return m + rng.choice(["", "", "e-10", "d-9", "e+04", "d0", "e0", "d2"])
+    return m + rng.choice(["", "", "e-10", "d-9", "e+04", "d0", "d0", "e0", "d2", "d01", "d+02", "e-05", "d00"])
 
 
 def gen_expr(rng, depth, allow_findings=False):
@@ -248,7 +286,7 @@ def run(res, info):
     res.rule = ("every rate string of the bundled KROME networks; generated Fortran expressions to depth 4 (products, quotients, sums, powers with "
                 "signed / parenthesised / chained exponents, d- and e-exponents, intrinsic calls with signed first factors, user variables, "
                 "n(idx_X) references); a stream of unsupported shapes; non-trivial = accepted and evaluable")
-    res.assumptions = ["valuations are positive (no domain errors)", "integer literals are evaluated as Python numbers on both sides"]
+    res.assumptions = ["valuations are positive (no domain errors)", "integer literals of the Fortran source are evaluated as reals (KROME rate expressions are real-valued)"]
     rates = bundled_rates()
     if res.tier == "quick":
         rates = rates[:: max(1, len(rates) // 400)]
